@@ -66,7 +66,7 @@ PROPS = {
                      {"engine": "crashdiff", "profile": "write", "salt": 42, "workers": 16, "split": False,
                       "quick": {"n": 2, "len": 0, "timeout": 600}, "thorough": {"n": 8, "len": 0, "timeout": 3000}}],
             "modelled": CTL + ["replica level: crashdiff (profile write) makes every file-system call of a data write fail in turn (and kills the process at each) on the real replica: a write the replica reports as applied is on disk, a write whose call failed is reported as failed"]},
-    "C03": {"lean": CTLMOD, "prefixes": ["c03_", "ctl_reachable_inv"],
+    "C03": {"lean": CTLMOD, "prefixes": ["c03_", "ctl_reachable_inv", "stepWrite_fanOut", "readCalls_readOnly"],
             "runs": [ctl("membership", 480, 30, 9000, 40, 12)], "modelled": CTL},
     "C04": {"lean": CTLMOD + ["JivaVerif.Properties.C10Cluster"], "prefixes": ["c04_", "c18_consistent", "c09_start_fences_stale", "ctl_reachable_inv"],
             "runs": [ctl("reads", 480, 30, 9000, 40, 13),
